@@ -118,9 +118,10 @@ Definition digits_value (ds : bytes) : Z := fold_left (fun a d => 10 * a + digit
 Definition num_front (s : bytes) : bool * bytes :=
   let s1 := dropwhile isspace s in
   match s1 with
-  | 45 :: r => (true, takewhile isdigit r)
-  | 43 :: r => (false, takewhile isdigit r)
-  | _ => (false, takewhile isdigit s1)
+  | c :: r => if c =? 45 then (true, takewhile isdigit r)
+              else if c =? 43 then (false, takewhile isdigit r)
+              else (false, takewhile isdigit s1)
+  | [] => (false, [])
   end.
 
 (* (unsigned int)strtoul(s, NULL, 10) on an LP64 system: the value saturates at ULONG_MAX, a
@@ -219,4 +220,47 @@ Proof.
   split; [exact H1|]. split.
   - intros E. rewrite E in H2. discriminate.
   - apply Nat.leb_le. exact H3.
+Qed.
+
+(* ---- digit strings of bounded length never overflow atoi ---- *)
+Lemma digit_val_range c : isdigit c = true -> (0 <= digit_val c <= 9)%Z.
+Proof. unfold isdigit, digit_val. intros H. apply andb_true_iff in H as [H1 H2]. apply N.leb_le in H1, H2. lia. Qed.
+
+Lemma digits_fold_range ds : forall a, forallb isdigit ds = true -> (0 <= a)%Z ->
+  (0 <= fold_left (fun a d => 10 * a + digit_val d) ds a < (a + 1) * 10 ^ Z.of_nat (length ds))%Z.
+Proof.
+  induction ds as [|d r IH]; intros a H Ha; cbn [fold_left].
+  - cbn [length]. change (Z.of_nat 0) with 0%Z. rewrite Z.pow_0_r. lia.
+  - cbn [forallb] in H. apply andb_true_iff in H as [Hd Hr]. pose proof (digit_val_range d Hd) as Hv.
+    specialize (IH (10 * a + digit_val d)%Z Hr ltac:(lia)).
+    change (length (d :: r)) with (S (length r)). rewrite Nat2Z.inj_succ. rewrite Z.pow_succ_r by lia.
+    destruct IH as [I1 I2]. split; [exact I1|].
+    eapply Z.lt_le_trans; [exact I2|]. 
+    assert (0 < 10 ^ Z.of_nat (length r))%Z by (apply Z.pow_pos_nonneg; lia). nia.
+Qed.
+
+Lemma digits_value_range ds : forallb isdigit ds = true -> (0 <= digits_value ds < 10 ^ Z.of_nat (length ds))%Z.
+Proof. intros H. pose proof (digits_fold_range ds 0%Z H ltac:(lia)) as R. unfold digits_value. lia. Qed.
+
+Lemma digit_not_space c : isdigit c = true -> isspace c = false /\ (c =? 45) = false /\ (c =? 43) = false.
+Proof.
+  unfold isdigit, isspace. intros H. apply andb_true_iff in H as [H1 H2]. apply N.leb_le in H1, H2.
+  repeat split; repeat (apply orb_false_iff; split); apply N.eqb_neq; lia.
+Qed.
+
+Lemma num_front_digits s : forallb isdigit s = true -> num_front s = (false, s).
+Proof.
+  intros H. unfold num_front. destruct s as [|c r]; [reflexivity|].
+  simpl in H. apply andb_true_iff in H as [Hc Hr]. destruct (digit_not_space c Hc) as (A & B & C).
+  unfold dropwhile. cbn [span]. rewrite A. cbn [snd]. rewrite B, C.
+  unfold takewhile. cbn [span]. rewrite Hc. rewrite (span_all_end isdigit r Hr). reflexivity.
+Qed.
+
+Lemma atoi_digits s : forallb isdigit s = true -> (length s <= 9)%nat -> atoi s = Ok (digits_value s) /\ (0 <= digits_value s < 10 ^ 9)%Z.
+Proof.
+  intros H L. pose proof (digits_value_range s H) as R.
+  assert (10 ^ Z.of_nat (length s) <= 10 ^ 9)%Z as P by (apply Z.pow_le_mono_r; lia).
+  split; [|lia]. unfold atoi. rewrite (num_front_digits s H).
+  destruct ((- 2 ^ 31 <=? digits_value s) && (digits_value s <=? 2 ^ 31 - 1))%Z eqn:E; [reflexivity|].
+  exfalso. apply andb_false_iff in E as [E|E]; [apply Z.leb_gt in E|apply Z.leb_gt in E]; change (2 ^ 31)%Z with 2147483648%Z in E; change (10 ^ 9)%Z with 1000000000%Z in *; lia.
 Qed.
